@@ -270,6 +270,8 @@ Section Closed.
       apply H in H0. via H0.
     - (* MCreateTable *) cbn [subs In] in H1. destruct H1 as [E|H1]; [self|]. split_in H1. cbn [ast_stmt].
       destruct H1 as [H1|H1]; [apply H in H1; via H1|apply H0 in H1; via H1].
+    - (* MExplain *) cbn [subs In] in H0. destruct H0 as [E|H0]; [self|]. cbn [ast_stmt].
+      apply H in H0. apply RL_one in H0. via H0.
   Qed.
 
   (* every position of the grammar is reached by the traversal of the prescribed tree: C14 completeness *)
@@ -307,6 +309,22 @@ Section Closed.
     apply in_flat_map in H. destruct H as [n [Hn Hf]]. exists n. split; [apply qwalk_sound; exact Hn|exact Hf].
   Qed.
 End Closed.
+
+(* ---- EXPLAIN q before /repo kept the query in the tree: the payload position exists in the statement, the tree the
+   parser built had no node for it, whatever Children() returns and whatever the roots are ---- *)
+Definition ex_explained_payload : mexpr := MBin "=" (MLit "1" "int") (MLit "1" "int").
+Definition ex_explained_query : mstmt :=
+  MSelect CNil (ICons (MCol "" (mkName "a" eq_refl)) "" INil) (TCons (TName (mkT "users" eq_refl) "") TNil) JNil
+          (OSome ex_explained_payload) ENil ONone ENil.
+Theorem explain_query_dropped em root :
+  exists q x f, In x (subs (MExplain q)) /\ In f (local_findings (Some Low) (ast_sub x)) /\
+                ~ In f (scan_findings em root (Some Low) [explain_pinned]).
+Proof.
+  exists ex_explained_query, (SubE ex_explained_payload), taut. split; [|split].
+  - cbn. tauto.
+  - cbn. tauto.
+  - unfold scan_findings, scan_roots, explain_pinned. cbn. destruct (root KDescribe); cbn; tauto.
+Qed.
 
 (* ---- the documented payloads, on the payload node itself (letter case of keywords / function names free) ---- *)
 Lemma upper_idem_eq : upper "=" = "=". Proof. reflexivity. Qed.
